@@ -611,6 +611,22 @@ func newBusHarness(prog *busProgram) *busHarness {
 		case "afterCtx":
 			f := hook(3, arg)
 			opts = append(opts, eb.WithAfterPublishContext(func(ctx context.Context, t reflect.Type, ev any) { f(ev.(pider).pid()) }))
+		case "nilBeforeLegacy": // a hook option given a nil function: "no hook"
+			if useSetters {
+				late = append(late, func(b *eb.EventBus) { b.SetBeforePublishHook(nil) })
+			} else {
+				opts = append(opts, eb.WithBeforePublish(nil))
+			}
+		case "nilAfterLegacy":
+			if useSetters {
+				late = append(late, func(b *eb.EventBus) { b.SetAfterPublishHook(nil) })
+			} else {
+				opts = append(opts, eb.WithAfterPublish(nil))
+			}
+		case "nilBeforeCtx":
+			opts = append(opts, eb.WithBeforePublishContext(nil))
+		case "nilAfterCtx":
+			opts = append(opts, eb.WithAfterPublishContext(nil))
 		case "panicHandler":
 			ph := eb.PanicHandler(func(ev any, ht reflect.Type, pv any) {
 				g := gid()
@@ -683,6 +699,14 @@ func (p *busProgram) input(sched []T) T {
 			optT = append(optT, C("OBeforeCtx", a))
 		case "afterCtx":
 			optT = append(optT, C("OAfterCtx", a))
+		case "nilBeforeLegacy":
+			optT = append(optT, C("ONilBeforeLegacy"))
+		case "nilAfterLegacy":
+			optT = append(optT, C("ONilAfterLegacy"))
+		case "nilBeforeCtx":
+			optT = append(optT, C("ONilBeforeCtx"))
+		case "nilAfterCtx":
+			optT = append(optT, C("ONilAfterCtx"))
 		case "panicHandler":
 			optT = append(optT, C("OPanicHandler"))
 		case "persistErr":
